@@ -192,6 +192,80 @@ pub fn run(a: &Args) -> Ctx {
                 }
             }
         }
+        // (d) whole foreign headers: other formats' names, blank headers, signatures swapped between the files
+        let foreign16: Vec<(&str, Vec<u8>)> = vec![
+            ("16 zero bytes", vec![0u8; 16]),
+            ("16 0xFF bytes", vec![0xFF; 16]),
+            ("sibling format siamdbV", { let mut v = b"siamdbV\0".to_vec(); v.extend_from_slice(&sig_of(ka)); v }),
+            ("sibling format siamdbK", { let mut v = b"siamdbK\0".to_vec(); v.extend_from_slice(&sig_of(ka)); v }),
+            ("sibling format siamdbH", { let mut v = b"siamdbH\0".to_vec(); v.extend_from_slice(&sig_of(ka)); v }),
+            ("abysdb with another file letter", { let mut v = b"abysdbX\0".to_vec(); v.extend_from_slice(&sig_of(ka)); v }),
+            ("upper-case format name", { let mut v = b"ABYSDBV\0".to_vec(); v.extend_from_slice(&sig_of(ka)); v }),
+            ("type signature without padding zeros", { let mut v = img.key[0..8].to_vec(); let mut t = sig_of(ka); for b in t.iter_mut() { if *b == 0 { *b = b' '; } } v.extend_from_slice(&t); v }),
+            ("random bytes", crate::util::gen_bytes(16, 77, 0)),
+        ];
+        for f in 0..3usize {
+            let fname = ["key", "val", "htx"][f];
+            for (what, bytes) in foreign16.iter() {
+                job += 1;
+                if job % a.nshards != a.shard {
+                    continue;
+                }
+                let mut im = img.clone();
+                {
+                    let b = match f { 0 => &mut im.key, 1 => &mut im.val, _ => &mut im.htx };
+                    let keep_sig1 = what.starts_with("type signature");
+                    if keep_sig1 {
+                        b[8..16].copy_from_slice(&bytes[8..16]);
+                    } else {
+                        b[0..16].copy_from_slice(bytes);
+                    }
+                }
+                let cell = Cell { desc: format!("{} map ({} entries) whose .{fname} starts with {what}, opened as {}", type_name(ka), entries, type_name(ka)), signature: format!("foreign_header file={fname} what={what} type={} outcome=accepted", type_name(ka)) };
+                check_cell(&dir, &im, ka, cell, &mut ctx);
+                ctx.count("cells.foreign_headers", 1);
+            }
+            // the whole header blanked (an interrupted creation must not be mistaken for a foreign file being ours)
+            for blank in [128usize, 192] {
+                job += 1;
+                if job % a.nshards != a.shard {
+                    continue;
+                }
+                let mut im = img.clone();
+                {
+                    let b = match f { 0 => &mut im.key, 1 => &mut im.val, _ => &mut im.htx };
+                    if entries == 0 && f != 2 {
+                        continue; // a header-only file that is blanked IS an empty file's worth of zeros: nothing foreign about it
+                    }
+                    let n = blank.min(b.len());
+                    for x in b[..n].iter_mut() {
+                        *x = 0;
+                    }
+                }
+                let cell = Cell { desc: format!("{} map ({} entries) whose .{fname} has its first {blank} bytes zeroed, opened as {}", type_name(ka), entries, type_name(ka)), signature: format!("blank_header file={fname} bytes={blank} type={} outcome=accepted", type_name(ka)) };
+                check_cell(&dir, &im, ka, cell, &mut ctx);
+                ctx.count("cells.blank_headers", 1);
+            }
+            // this file's 8-byte format signature replaced by that of one of the other two files
+            for g in 0..3usize {
+                if g == f {
+                    continue;
+                }
+                job += 1;
+                if job % a.nshards != a.shard {
+                    continue;
+                }
+                let src: [u8; 8] = { let b = match g { 0 => &img.key, 1 => &img.val, _ => &img.htx }; let mut x = [0u8; 8]; x.copy_from_slice(&b[0..8]); x };
+                let mut im = img.clone();
+                {
+                    let b = match f { 0 => &mut im.key, 1 => &mut im.val, _ => &mut im.htx };
+                    b[0..8].copy_from_slice(&src);
+                }
+                let cell = Cell { desc: format!("{} map whose .{fname} carries the format signature of its .{}, opened as {}", type_name(ka), ["key", "val", "htx"][g], type_name(ka)), signature: format!("swapped_format_signature file={fname} from={} type={} outcome=accepted", ["key", "val", "htx"][g], type_name(ka)) };
+                check_cell(&dir, &im, ka, cell, &mut ctx);
+                ctx.count("cells.swapped_format_signatures", 1);
+            }
+        }
         // (c) single-byte mutations of the 16 signature bytes of each file, opened as A
         for f in 0..3usize {
             let fname = ["key", "val", "htx"][f];
